@@ -2,7 +2,7 @@
 from vlib import engine
 from vlib.engine import CheckDef, ModelRun, prog_string
 
-OPS = {'modify': 0, 'read': 1, 'read2': 2}
+OPS = {'modify': 0, 'read': 1, 'read2': 2, 'relay': 3}
 R = '1,2'
 
 
